@@ -457,7 +457,11 @@ def node_features(graph, name):
             continue
         for u in others:
             un = nodes[u]
-            if ax[0] not in _ups(un):
+            if stateful_ups(origin[0]):
+                # the originating node itself sits on top of upstream state (it re-split, and combined
+                # the inherited axes away -- otherwise those axes are shared "only-via-descendants")
+                kinds.append("direct(resplit-origin)+descendant")
+            elif ax[0] not in _ups(un):
                 kinds.append("direct+indirect-descendant")
             elif len(stateful_ups(u)) >= 2:
                 kinds.append("direct+fan-in-child")
@@ -472,6 +476,7 @@ def node_features(graph, name):
     if kinds:
         order = [
             "only-via-descendants",
+            "direct(resplit-origin)+descendant",
             "direct+indirect-descendant",
             "direct+fan-in-child",
             "direct+resplit-child",
@@ -590,6 +595,11 @@ def classify(graph, verdict):
         return "direct-upstream-also-feeds-fan-in-upstream", node, feats, sym
     if "direct-upstream-also-feeds-resplit-upstream-that-combined-it" in feats:
         return "direct-upstream-also-feeds-resplit-upstream-that-combined-it", node, feats, sym
+    own_comb = bool({n["name"]: n for n in sub["nodes"]}[node].get("combine"))
+    if "axes-left" in feats.get("zip-partially-named-combine-upstream", ()) and own_comb and sym == "KeyError@combine_final_groups":
+        # the node combines, and one of its upstreams (still stateful) combined a zip group by naming
+        # only one of the linked fields
+        return "combiner-after-upstream-combined-zip-split-by-one-field", node, feats, sym
     return None, node, feats, sym
 
 
@@ -748,6 +758,37 @@ def _run_domain(ctx, dom, graphs, ex, abort_s, stats):
     return done
 
 
+def case_lists(thorough, seed):
+    """the three fixed case lists of a tier (a pure function of tier and seed)"""
+    rng = random.Random(seed)
+    maxlen = 3 if thorough else 2
+    # 1. named shapes
+    sg = [g for _l, g in shape_graphs(maxlen, all_vectors=thorough)]
+    # 2. every graph with <= 2 nodes (grammar of gen_graphs), lists of length 2
+    small = []
+    for k in (1, 2):
+        small += [g for g in gen_graphs(k, {"x": 2, "y": 2, "z": 2}, rich=False, allow_wf=thorough) if useful(g)]
+    # 3. seeded random walk over the same grammar, 3..4 (thorough 5) nodes, lengths 1..maxlen
+    plan = {3: 600, 4: 900, 5: 500} if thorough else {3: 160, 4: 240}
+    sampled, seen = [], set()
+    for k, cnt in plan.items():
+        got, tries = 0, 0
+        while got < cnt and tries < cnt * 20:
+            tries += 1
+            lens = {l: rng.randint(1, maxlen) if rng.random() < 0.3 else 2 for l in LISTS}
+            g = random_graph(rng, k, lens, rich=thorough, allow_wf=True)
+            if g is None:
+                continue
+            key = graph_key(g)
+            if key in seen:
+                continue
+            seen.add(key)
+            sampled.append(g)
+            got += 1
+    rng.shuffle(sampled)
+    return sg, small, sampled, plan
+
+
 def run(ctx):
     import concurrent.futures as cf
     import multiprocessing as mp
@@ -761,38 +802,13 @@ def run(ctx):
         "(spec/wf_ref.py); the order of axes contributed by different upstream nodes is treated as open (every permutation accepted); "
         "failing cases are reduced to the failing node's ancestor sub graph and classified by a structural predicate"
     )
-    rng = random.Random(ctx.seed)
     maxlen = ctx.pick(2, 3)
     stats = {}
-    # The case lists below are FIXED by (tier, seed): count-bounded, never time-bounded.  `abort` is a
+    # The case lists are FIXED by (tier, seed): count-bounded, never time-bounded.  `abort` is a
     # last-resort guard only (-> UNDECIDED, exit 2), sized well above the expected run time
     # (quick: ~25 s idle / ~100 s at 4x load; thorough: ~2 min idle / ~8 min at 4x load).
     abort = ctx.pick(300, 870)
-
-    # 1. named shapes
-    sg = [g for _l, g in shape_graphs(maxlen, all_vectors=ctx.thorough)]
-    # 2. every graph with <= 2 nodes (grammar of gen_graphs), lists of length 2
-    small = []
-    for k in (1, 2):
-        small += [g for g in gen_graphs(k, {"x": 2, "y": 2, "z": 2}, rich=False, allow_wf=ctx.thorough) if useful(g)]
-    # 3. seeded random walk over the same grammar, 3..4 (thorough 5) nodes, lengths 1..maxlen
-    plan = ctx.pick({3: 160, 4: 240}, {3: 600, 4: 900, 5: 500})
-    sampled, seen = [], set()
-    for k, cnt in plan.items():
-        got, tries = 0, 0
-        while got < cnt and tries < cnt * 20:
-            tries += 1
-            lens = {l: rng.randint(1, maxlen) if rng.random() < 0.3 else 2 for l in LISTS}
-            g = random_graph(rng, k, lens, rich=ctx.thorough, allow_wf=True)
-            if g is None:
-                continue
-            key = graph_key(g)
-            if key in seen:
-                continue
-            seen.add(key)
-            sampled.append(g)
-            got += 1
-    rng.shuffle(sampled)
+    sg, small, sampled, plan = case_lists(ctx.thorough, ctx.seed)
 
     with cf.ProcessPoolExecutor(max_workers=12, mp_context=mp.get_context("spawn"), initializer=_pool_init) as ex:
         d1 = ctx.domain(
